@@ -208,6 +208,9 @@ class Swap(base.Mutator):
       child1 = parent_node.children[child_indexes[1]]
       parent_node.children.rebind({child_indexes[0]: child1})
       parent_node.children.rebind({child_indexes[1]: child0})
+      # When child choices are reordered, their DNASpec need to be realigned.
+      for i, child in enumerate(parent_node.children):
+        child.use_spec(parent_node.spec.subchoice(i))
     return dna
 
   def _get_candidate_nodes(self, dna: pg.DNA) -> List[pg.DNA]:
